@@ -23,6 +23,7 @@ package lintcmd
 
 import (
 	"bytes"
+	"context"
 	"encoding/json"
 	"fmt"
 	"os"
@@ -123,19 +124,27 @@ type c10JSON struct {
 	Message string `json:"message"`
 }
 
+var errC10Budget = fmt.Errorf("budget")
+
 // c10Invoke runs the binary once and attributes every problem to (package, slot).
-func c10Invoke(bin, dir, cache, gocache string, show bool, m *c10Module) ([][][]c10Prob, string, error) {
+func c10Invoke(bin, dir, cache, gocache string, show bool, m *c10Module, deadline time.Time) ([][][]c10Prob, string, error) {
 	args := []string{"-checks", c10Checks, "-tests=false", "-f", "json"}
 	if show {
 		args = append(args, "-show-ignored")
 	}
 	args = append(args, "./...")
-	cmd := exec.Command(bin, args...)
+	ctx, cancel := context.WithDeadline(context.Background(), deadline)
+	defer cancel()
+	cmd := exec.CommandContext(ctx, bin, args...)
+	cmd.WaitDelay = 2 * time.Second
 	cmd.Dir = dir
-	cmd.Env = append(os.Environ(), "STATICCHECK_CACHE="+cache, "GOCACHE="+gocache, "GOMAXPROCS=2", "TZ=UTC")
+	cmd.Env = append(os.Environ(), "STATICCHECK_CACHE="+cache, "GOCACHE="+gocache, "GOMAXPROCS=1", "TZ=UTC")
 	var out, errb bytes.Buffer
 	cmd.Stdout, cmd.Stderr = &out, &errb
 	err := cmd.Run()
+	if ctx.Err() != nil {
+		return nil, "", errC10Budget
+	}
 	if ee, ok := err.(*exec.ExitError); ok {
 		if ee.ExitCode() != 1 {
 			return nil, "", fmt.Errorf("staticcheck exited %d: %s", ee.ExitCode(), errb.String())
@@ -189,9 +198,11 @@ func c10Invoke(bin, dir, cache, gocache string, show bool, m *c10Module) ([][][]
 }
 
 // c10RunModule: write, run twice cold per show flag (self-identity), clean up.
-func c10RunModule(bin, root string, m *c10Module, res *vx.Result) {
+func c10RunModule(bin, root string, m *c10Module, res *vx.Result, deadline time.Time) {
 	dir := filepath.Join(root, fmt.Sprintf("%s%04d", m.mode, m.id))
-	defer os.RemoveAll(dir)
+	if os.Getenv("C10_KEEP") == "" {
+		defer os.RemoveAll(dir)
+	}
 	if err := c10WriteModule(filepath.Join(dir, "m"), m); err != nil {
 		m.skipped = "cannot write module: " + err.Error()
 		return
@@ -202,11 +213,25 @@ func c10RunModule(bin, root string, m *c10Module, res *vx.Result) {
 		var first string
 		for rep := 0; rep < 2; rep++ {
 			n++
+			if time.Now().After(deadline) {
+				m.skipped = "budget"
+				return
+			}
 			cache := filepath.Join(dir, fmt.Sprintf("sc%d", n))
 			os.MkdirAll(cache, 0o755)
-			r, raw, err := c10Invoke(bin, filepath.Join(dir, "m"), cache, gocache, show, m)
+			t0 := time.Now()
+			r, raw, err := c10Invoke(bin, filepath.Join(dir, "m"), cache, gocache, show, m, deadline)
+			if n == 1 {
+				res.Count("ms_in_first_invocations_incl_go_build", time.Since(t0).Milliseconds())
+			} else {
+				res.Count("ms_in_repeat_invocations", time.Since(t0).Milliseconds())
+			}
 			os.RemoveAll(cache)
 			res.Count("binary_invocations", 1)
+			if err == errC10Budget {
+				m.skipped = "budget"
+				return
+			}
 			if err != nil {
 				m.skipped = err.Error()
 				return
@@ -322,6 +347,8 @@ func c10Enumerate(b *c10Base, ref []c10Prob) (directives, controls, trailing []c
 // evaluation
 
 type c10Finding struct {
+	vkey  string
+	show  bool
 	class string
 	key   string
 	msg   string
@@ -345,6 +372,8 @@ type c10Eval struct {
 	catDiffer, wrongCaseU1000Hit, wrongCaseU int
 	noReasonUnmatched                        int
 	permPairs                                int
+	nsample                                  int
+	deadline                                 time.Time
 }
 
 func c10Class(e c10Expect, v c10Variant, missing, extra []string) string {
@@ -407,9 +436,9 @@ func c10Class(e c10Expect, v c10Variant, missing, extra []string) string {
 					return "not-suppressed:" + code(s)
 				}
 			}
-			// named problem still reported although absent from the expectation
-			for _, p := range e.Scope {
-				if p.Role == f[0] && strconv.Itoa(p.Line) == f[1] && p.Code == f[3] {
+			// a base problem the model wanted suppressed is still reported
+			for _, p := range e.Moved {
+				if p.String() == s {
 					return "not-suppressed:" + code(s)
 				}
 			}
@@ -484,7 +513,7 @@ func (ev *c10Eval) evalPkg(mode string, slots []c10Variant, real [2][][]c10Prob)
 			if !show && v.Kind == "ignore" && v.Reason && e.Unmatched == c10Either && !e.MaybeU1000 {
 				u := false
 				for _, n := range v.Names {
-					u = u || strings.EqualFold(n, "U1000")
+					u = u || c10Glob(n, "U1000", true)
 				}
 				switch {
 				case u && flagged:
@@ -527,12 +556,20 @@ func (ev *c10Eval) evalPkg(mode string, slots []c10Variant, real [2][][]c10Prob)
 			if v.Kind != "base" {
 				src = fmt.Sprintf("\ncomment %q on line %d of file %s of base %s", v.text(), v.layout().dirLine, b.DirRole, b.Name)
 			}
-			ev.findings = append(ev.findings, c10Finding{class: class, key: key, mode: mode, pkg: slots, slots: []c10Variant{v},
+			ev.findings = append(ev.findings, c10Finding{vkey: vkey, show: show, class: class, key: key, mode: mode, pkg: slots, slots: []c10Variant{v},
 				msg: fmt.Sprintf("%s (%s mode, -show-ignored=%v): the real report differs from the model%s\nexpected but not reported: %v\nreported but not expected: %v",
 					vkey, mode, show, src, missing, extra)})
 		}
 		if nontrivial && (v.Kind == "ignore" || v.Kind == "file-ignore") {
 			res.NontrivialKey(vkey)
+			ev.nsample++
+			if ev.nsample%997 == 1 {
+				var rep []string
+				for _, p := range real[1][si] {
+					rep = append(rep, p.String())
+				}
+				res.Sample(map[string]any{"variant": vkey, "mode": mode, "comment": v.text(), "report_with_show_ignored": rep})
+			}
 		}
 		if v.Kind != "base" && v.Kind != "trailing" {
 			res.Validated++
@@ -566,7 +603,7 @@ func (ev *c10Eval) evalPerm(mode string, all []c10Variant, pkgOf map[string][]c1
 			if show {
 				key += "/show-ignored"
 			}
-			ev.findings = append(ev.findings, c10Finding{class: class, key: key, mode: mode, slots: []c10Variant{v, w}, pkg: pkgOf[v.key()],
+			ev.findings = append(ev.findings, c10Finding{vkey: v.key(), show: show, class: class, key: key, mode: mode, slots: []c10Variant{v, w}, pkg: pkgOf[v.key()],
 				msg: fmt.Sprintf("%s vs %s (%s mode, -show-ignored=%v): permuting the check list changes the report\nonly with %q: %v\nonly with %q: %v",
 					v.key(), w.key(), mode, show, v.text(), onlyB, w.text(), onlyA)})
 		}
@@ -599,7 +636,7 @@ func c10Chunk(vs []c10Variant, perPkg, perMod int, mode string, controls bool, f
 	return mods
 }
 
-func c10RunAll(bin, root string, mods []*c10Module, res *vx.Result, par int) {
+func c10RunAll(bin, root string, mods []*c10Module, res *vx.Result, par int, deadline time.Time) {
 	var wg sync.WaitGroup
 	sem := make(chan struct{}, par)
 	for _, m := range mods {
@@ -616,7 +653,7 @@ func c10RunAll(bin, root string, mods []*c10Module, res *vx.Result, par int) {
 				m.skipped = "budget"
 				return
 			}
-			c10RunModule(bin, root, m, res)
+			c10RunModule(bin, root, m, res, deadline)
 		}(m)
 	}
 	wg.Wait()
@@ -636,7 +673,8 @@ func TestVerifC10(t *testing.T) {
 		res.NotExhaustive("nothing was run")
 		return
 	}
-	res.SetBudget(vx.Budget(80*time.Second, 16*time.Minute))
+	start := time.Now()
+	budget := vx.Budget(100*time.Second, 16*time.Minute)
 	root := filepath.Join(vx.ScratchDir(), "c10")
 	os.MkdirAll(root, 0o755)
 	const par = 16
@@ -650,7 +688,7 @@ func TestVerifC10(t *testing.T) {
 		b.prepare()
 		baseMod.pkgs = append(baseMod.pkgs, c10Pkg{Slots: []c10Variant{{Base: b.Name, Kind: "base"}}})
 	}
-	c10RunModule(bin, root, baseMod, res)
+	c10RunModule(bin, root, baseMod, res, time.Now().Add(time.Hour))
 	if baseMod.skipped != "" {
 		res.Note("base run failed: %s", baseMod.skipped)
 		res.NotExhaustive("the base packages could not be analysed")
@@ -689,6 +727,11 @@ func TestVerifC10(t *testing.T) {
 		res.Count("base_"+b.Name+"_placements", int64(len(b.places)))
 	}
 
+	// the time budget covers the enumeration; the (small, constant) base phase is not part of it
+	res.SetBudget(time.Since(start) + budget)
+	ev.deadline = time.Now().Add(budget)
+	res.Count("ms_base_phase", time.Since(start).Milliseconds())
+
 	// 2. replay: evaluate exactly the recorded package
 	if _, raw, ok := vx.Replay(); ok {
 		var c c10Case
@@ -700,53 +743,88 @@ func TestVerifC10(t *testing.T) {
 		return
 	}
 
-	// 3. the space
-	var directives, controls, trailing []c10Variant
-	for size := 1; size <= 2; size++ {
-		for _, b := range c10Bases {
-			d, c, tr := c10Enumerate(b, ev.refs[b.Name])
-			for _, v := range d {
-				if len(v.Names) == size {
-					directives = append(directives, v)
-				}
+	// 3. the space. quick: line directives at every placement, file directives at the two file-top
+	// placements and above the first, a middle and the last placement; lists without a reason only
+	// as singles and as pairs that contain U1000. thorough: everything.
+	inQuick := func(v c10Variant) bool {
+		b := c10BaseByName(v.Base)
+		if v.Kind == "file-ignore" && v.Place > 0 && v.Place != b.places[0] && v.Place != b.places[len(b.places)/2] && v.Place != b.places[len(b.places)-1] {
+			return false
+		}
+		if !v.Reason && len(v.Names) == 2 && v.Names[0] != "U1000" && v.Names[1] != "U1000" {
+			return false
+		}
+		return true
+	}
+	var singles, pairs, controls, trailing []c10Variant
+	total := 0
+	for _, b := range c10Bases {
+		d, c, tr := c10Enumerate(b, ev.refs[b.Name])
+		total += len(d)
+		for _, v := range d {
+			if !vx.Thorough() && !inQuick(v) {
+				continue
 			}
-			if size == 1 {
-				controls = append(controls, c...)
-				trailing = append(trailing, tr...)
+			if len(v.Names) == 1 {
+				singles = append(singles, v)
+			} else {
+				pairs = append(pairs, v)
 			}
 		}
+		controls = append(controls, c...)
+		trailing = append(trailing, tr...)
 	}
-	all := append(append(append([]c10Variant(nil), controls...), directives...), trailing...)
-	res.Count("variants_directive", int64(len(directives)))
+	// smallest first: reason before none, bases interleaved by the stable sort
+	sort.SliceStable(singles, func(i, j int) bool { return singles[i].Reason && !singles[j].Reason })
+	sort.SliceStable(pairs, func(i, j int) bool { return pairs[i].Reason && !pairs[j].Reason })
+	first := append(append(append([]c10Variant(nil), singles...), controls...), trailing...)
+	all := append(append([]c10Variant(nil), first...), pairs...)
+	res.Count("variants_directive_in_full_space", int64(total))
+	res.Count("variants_directive", int64(len(singles)+len(pairs)))
 	res.Count("variants_control_comment", int64(len(controls)))
 	res.Count("variants_trailing_unasserted", int64(len(trailing)))
 
-	// packed mode: everything
-	perPkg := 64
-	mods := c10Chunk(all, perPkg, 4, "packed", true, 100)
-	// isolated mode: one variant per package; quick: singles with a reason + the control comments
-	var iso []c10Variant
-	firstPlace := map[string]bool{}
-	for _, v := range all {
-		pk := fmt.Sprintf("%s/%s", v.Base, v.Kind)
+	// packed mode: everything, 64 variants (+ one unchanged copy of each base) per package, one package per module
+	const perPkg = 64
+	// pairs that mix U1000 with another name on a line directive go before the other pairs
+	var prio, rest []c10Variant
+	for _, v := range pairs {
+		if v.Kind == "ignore" && v.Reason && (v.Names[0] == "U1000" || v.Names[1] == "U1000") {
+			prio = append(prio, v)
+		} else {
+			rest = append(rest, v)
+		}
+	}
+	mods := c10Chunk(first, perPkg, 1, "packed", true, 100)
+	prioMods := c10Chunk(prio, perPkg, 1, "packed", true, 300)
+	// isolated mode: one variant per package. quick: every placement with the id that hits, and the
+	// line of base A's unused function with every single name (with and without reason, both
+	// kinds); thorough: all singles and control comments.
+	var iso, isoLate []c10Variant
+	for _, v := range first {
+		b := c10BaseByName(v.Base)
 		switch {
-		case vx.Thorough():
-		case v.Kind == "trailing" || v.Kind == "comment":
+		case v.Kind == "trailing":
 			continue
-		case len(v.Names) == 1 && v.Reason && v.Names[0] == c10NameSet(c10BaseByName(v.Base), ev.refs[v.Base], v.Place)[0]:
-			// every placement with the id that hits
-		case len(v.Names) == 1 && (v.Place == c10BaseByName(v.Base).places[4] || v.Place == c10BaseByName(v.Base).places[len(c10BaseByName(v.Base).places)-2]):
-			// two placements per base and kind with every single name, with and without reason
-			firstPlace[pk] = true
+		case v.Kind != "comment" && v.Reason && v.Names[0] == c10NameSet(b, ev.refs[v.Base], v.Place)[0]:
+		case v.Kind != "comment" && v.Base == "A" && v.Place == b.places[len(b.places)-2]:
+		case vx.Thorough():
+			isoLate = append(isoLate, v)
+			continue
 		default:
 			continue
 		}
 		iso = append(iso, v)
 	}
-	isoMods := c10Chunk(iso, 1, 40, "isolated", false, 1000)
-	res.Count("modules_packed", int64(len(mods)))
+	isoMods := c10Chunk(iso, 1, vx.Pick(16, 32), "isolated", false, 1000)
+	pairMods := c10Chunk(rest, perPkg, 4, "packed", true, 400)
+	res.Count("modules_packed", int64(len(mods)+len(prioMods)+len(pairMods)))
 	res.Count("modules_isolated", int64(len(isoMods)))
-	ev.runAndReport(bin, root, append(mods, isoMods...), all, par, true)
+	res.Count("variants_isolated", int64(len(iso)))
+	lateMods := c10Chunk(isoLate, 1, 32, "isolated", false, 2000)
+	res.Count("modules_isolated", int64(len(lateMods)))
+	res.Count("variants_isolated", int64(len(isoLate)))
+	ev.runAndReport(bin, root, append(append(append(append(mods, prioMods...), isoMods...), pairMods...), lateMods...), all, par, true)
 
 	res.States = int64(len(ev.states))
 	res.Count("permutation_pairs_compared", int64(ev.permPairs))
@@ -765,7 +843,7 @@ func TestVerifC10(t *testing.T) {
 // when it was found in a packed one).
 func (ev *c10Eval) runAndReport(bin, root string, mods []*c10Module, all []c10Variant, par int, confirm bool) {
 	res := ev.res
-	c10RunAll(bin, root, mods, res, par)
+	c10RunAll(bin, root, mods, res, par, ev.deadline)
 	pkgOf := map[string]map[string][]c10Variant{}
 	skipped := 0
 	modes := map[string]bool{}
@@ -799,7 +877,13 @@ func (ev *c10Eval) runAndReport(bin, root string, mods []*c10Module, all []c10Va
 			ev.evalPerm(mode, all, pkgOf[mode])
 		}
 	}
-	// group by class, smallest first (findings are already in enumeration order per mode)
+	index := map[string]int{}
+	for i, v := range all {
+		if _, ok := index[v.key()]; !ok {
+			index[v.key()] = i
+		}
+	}
+	// group by class
 	order := []string{}
 	byClass := map[string][]c10Finding{}
 	for _, f := range ev.findings {
@@ -811,7 +895,14 @@ func (ev *c10Eval) runAndReport(bin, root string, mods []*c10Module, all []c10Va
 	sort.Strings(order)
 	for ci, class := range order {
 		fs := byClass[class]
-		// prefer a finding seen in isolated mode with the same key as the first one
+		// the representative of a class is its smallest variant in enumeration order, whatever
+		// order the modules were run in; prefer the isolated-mode sighting of that variant
+		sort.SliceStable(fs, func(i, j int) bool {
+			if a, b := index[fs[i].vkey], index[fs[j].vkey]; a != b {
+				return a < b
+			}
+			return !fs[i].show && fs[j].show
+		})
 		f := fs[0]
 		for _, g := range fs {
 			if g.key == f.key && g.mode == "isolated" {
@@ -823,14 +914,14 @@ func (ev *c10Eval) runAndReport(bin, root string, mods []*c10Module, all []c10Va
 		note := ""
 		if f.mode == "packed" {
 			reproduced := false
-			if confirm && ci < 12 && !res.Expired() {
+			if confirm && ci < 12 {
 				sub := &c10Eval{res: vx.New("confirm"), refs: ev.refs, enabled: ev.enabled, seen: map[string]string{}, states: map[string]bool{}, unassertTrailing: map[string]int{}}
 				var pk []c10Pkg
 				for _, v := range f.slots {
 					pk = append(pk, c10Pkg{Slots: []c10Variant{v}})
 				}
 				m := &c10Module{id: 5000 + ci, mode: "isolated", pkgs: pk}
-				c10RunModule(bin, root, m, res)
+				c10RunModule(bin, root, m, res, time.Now().Add(5*time.Minute))
 				if m.skipped == "" {
 					for pi, p := range m.pkgs {
 						sub.evalPkg("isolated", p.Slots, [2][][]c10Prob{m.real[0][pi], m.real[1][pi]})
